@@ -100,6 +100,14 @@ CHECKS["C08"] = {
             "the format defines (21_12 transposes in Full). Does not decide numeric equality of loaded values or the v1 2/4-port disambiguation.",
     "note": "qualifier sources: tps_double / tps_value_vector = raw, multiplier*raw and vnadata_get_frequency = hz",
 }
+CHECKS["C06"] = {
+    "technique": "static symbolic field accounting (polynomials in ports from saver loop nests vs loader arithmetic), failure-class reachability after the check-only return, symbolic sprintf bounds",
+    "text": "Decides that for every (parameter type, format) pair the saver prints as many numeric fields per NPD data line as the loader expects (as polynomials in "
+            "the port count), that after the point where vnadata_cksave returns success vnadata_save takes no failure edge of a callee that can fail for argument "
+            "reasons, and that print_value's buffers fit every accepted precision. Does not decide that printed digits round-trip, Touchstone-1 normalisation "
+            "arithmetic or the independent-reader clause.",
+    "note": "S matrices are taken square (rows = ports) when comparing counts; Touchstone option letters are covered under C08",
+}
 NOT_APPLICABLE = {
     "C14": "YAML fidelity of arbitrary scalars/keys depends on libyaml's emitter/scanner behaviour on run-time strings; no clause is visible in libvna's source shape (DESIGN.md section 3, C14)",
 }
